@@ -15,7 +15,7 @@ TITLE = 'df_slice keeps exactly the rows in the interval; stitching switches at 
 STATEMENT = ('df_slice(ts, lb, ub, openclose) = the rows with lb </<= t and t </<= ub per the two brackets (time-of-day bounds compare '
              'the time of day, start > end wraps); stitching takes (ub[i-1], ub[i]] from series i (column j from series i+j), each '
              'timestamp once; df_unslice then stitching again reproduces the frame')
-LEAN_FILES = ['Basic', 'TSBasic', 'Slice', 'SliceDriver', 'DfSliceLemmas', 'BitempLemmas', 'C13']
+LEAN_FILES = ['Basic', 'TSBasic', 'Slice', 'SliceDriver', 'DfSliceLemmas', 'DfSliceNaLemmas', 'DfSliceBcastLemmas', 'DfSliceFrameLemmas', 'BitempLemmas', 'C13']
 RULE = ('distinct protocol lines (a single slice, a stitching call or an unslice round trip) on which the implementation returned '
         'a non-empty series / frame')
 TRUSTED = ['correspondence harness (pv.engine, pv.proto) and generators of pv.props.c13',
@@ -25,7 +25,8 @@ ASSUMPTIONS = ['pandas: boolean-mask selection keeps the rows whose mask is True
                'times of day it is indexer_between_time (both ends included), with one it raises and the masks are used; '
                'concat(axis=1) is an outer join on the union index; concat(axis=0) pads missing columns with NaN; sort_index is a stable sort',
                'single slices: any row order (increasing, decreasing, shuffled, a repeated stamp); stitching: series with strictly increasing '
-               'duplicate-free indexes; lists hold series (not frames, not scalars); bound lists hold dates only',
+               'duplicate-free indexes; list members are Series, DataFrames (columns 0..w-1) or integer / NaN scalars; bound lists hold dates or '
+               'times of day (a scalar beside a time-of-day list raises in the code: only n = 1 is generated, error kind Other)',
                'a Series and a one-column DataFrame with the same rows are not distinguished']
 
 D0 = datetime.datetime(2020, 1, 1)
@@ -121,6 +122,34 @@ def dec_bound(sx):
 
 def dec_dates(sx):
     return None if sx == 'N' else [proto.dec(x) for x in sx[1:]]
+
+
+def dec_member(sx):
+    if sx == 'N':
+        return None
+    if isinstance(sx, list):
+        return dec_ts(sx) if sx[0] == 'L' else dec_frame(sx)
+    v = proto.dec(sx)
+    return np.nan if (isinstance(v, float) and v != v) else v
+
+
+def _dec_time(x):
+    s, micro = divmod(int(x[2:]), 10 ** 6)
+    return datetime.time(s // 3600, (s // 60) % 60, s % 60, micro)
+
+
+def dec_blist(sx):
+    if sx == 'N':
+        return None
+    if sx[0] == 'T':
+        return [_dec_time(x) for x in sx[1:]]
+    return [proto.dec(x) for x in sx[1:]]
+
+
+def dec_barg(sx):
+    if sx[0] == 'T':
+        return dec_bound(sx[1])
+    return [dec_bound(x) for x in sx[1:]]
 
 
 def dec_frame(sx):
@@ -342,6 +371,174 @@ def gen_stitch(rng, tier):
         yield dict(tag='roundtrip-repeated-bound', lines=[roundtrip_line(dfs, ub, rng.choice([1, 2, m]))])
 
 
+# ---------------------------------------------------------------- lists of frames / scalars, time-of-day lists, broadcasting
+
+def enc_member(m):
+    """('s', pairs) a Series | ('f', width, rows) a DataFrame | ('c', value) a scalar (None = NaN)"""
+    if m[0] == 's':
+        return enc_ts(m[1])
+    if m[0] == 'f':
+        return enc_frame_rows(m[1], m[2])
+    return 'F:nan' if m[1] is None else 'I:%d' % m[1]
+
+
+def enc_blist(bs):
+    if bs is None:
+        return 'N'
+    if bs and isinstance(bs[0], datetime.time):
+        return '(T' + ''.join(' I:%d' % ((b.hour * 3600 + b.minute * 60 + b.second) * 10 ** 6 + b.microsecond) for b in bs) + ')'
+    return '(L' + ''.join(' ' + enc(b) for b in bs) + ')'
+
+
+def stitchm_line(ms, lb, ub, oc, n):
+    return '(slice stitchm (L%s) %s %s %s I:%d)' % (''.join(' ' + enc_member(m) for m in ms), enc_blist(lb), enc_blist(ub), enc_oc(oc), n)
+
+
+def enc_barg(b):
+    if isinstance(b, list):
+        return '(L' + ''.join(' ' + enc_bound(x) for x in b) + ')'
+    return '(T %s)' % enc_bound(b)
+
+
+def slices_line(pairs, lb, ub, oc):
+    return '(slice slices %s %s %s %s)' % (enc_ts(pairs), enc_barg(lb), enc_barg(ub), enc_oc(oc))
+
+
+def rand_member(rng, scalars=True):
+    r = rng.random()
+    if r < 0.45:
+        return ('s', rand_series_days(rng))
+    if r < 0.8 or not scalars:
+        w = rng.choice([1, 2, 2, 3])
+        return ('f', w, [(t, [v] + [None if rng.random() < 0.2 else rng.randrange(1, 9) for _ in range(w - 1)]) for t, v in rand_series_days(rng)])
+    return ('c', None if rng.random() < 0.15 else rng.randrange(1, 9))
+
+
+def rand_series6(rng):
+    """a series on the 6-hour grid (3 days): times of day 00, 06, 12, 18"""
+    p = rng.choice([0.4, 0.7, 1.0])
+    return [(pt(i), rng.randrange(1, 9)) for i in range(12) if rng.random() < p]
+
+
+def gen_members(rng, tier):
+    k = 350 if tier == 'quick' else 7000
+    for _ in range(k):
+        m = rng.choice([2, 2, 3, 3, 4])
+        ms = [rand_member(rng) for _ in range(m)]
+        n = rng.choice([1, 1, 2, 3, m])
+        bs = [day(b) for b in rand_bounds(rng, m)]
+        oc = rng.choice(['(]', '(]', OMIT]) if rng.random() < 0.6 else rng.choice(BR)
+        r = rng.random()
+        lb, ub, tag = None, bs, 'members-ub'
+        if r < 0.2:
+            lb, ub, tag = bs, None, 'members-lb'
+        elif r < 0.4:
+            lb, ub, tag = [day(b) for b in rand_bounds(rng, m)], bs, 'members-both'
+        if rng.random() < 0.2:
+            ms, lb, ub = ms[::-1], (lb[::-1] if lb else lb), (ub[::-1] if ub else ub)
+            tag += '-decreasing'
+        kinds = set(x[0] for x in ms)
+        tag += ('+frames' if 'f' in kinds else '') + ('+scalars' if 'c' in kinds else '') + ('' if n == 1 else '-n')
+        yield dict(tag=tag, lines=[stitchm_line(ms, lb, ub, oc, n)])
+    # bound lists of times of day: every piece compares the time of day; with both lists a window whose start is later
+    # than its end wraps past midnight (C13-W2: the unrepaired code wrapped only for '[]' on a sorted index)
+    TL = [datetime.time(h) for h in (0, 3, 6, 9, 12, 15, 18, 21)] + [datetime.time(5, 59, 59), datetime.time(18, 0, 0, 1)]
+    for _ in range(k // 2):
+        m = rng.choice([1, 2, 2, 3])
+        ms = [('s', rand_series6(rng)) if rng.random() < 0.8 else
+              ('f', 2, [(t, [v, rng.randrange(1, 9)]) for t, v in rand_series6(rng)]) for _ in range(m)]
+        n = rng.choice([1, 1, 2, m])
+        ts = sorted(rng.choice(TL) for _ in range(m))
+        oc = rng.choice(BR + ['(]', OMIT])
+        r = rng.random()
+        lb, ub, tag = None, ts, 'tod-list-ub'
+        if r < 0.25:
+            lb, ub, tag = ts, None, 'tod-list-lb'
+        elif r < 0.6:
+            lo = sorted(rng.choice(TL) for _ in range(m))
+            lb, ub, tag = lo, ts, 'tod-list-both'
+            if any(a > b for a, b in zip(lo, ts)):
+                tag += '+wrap'
+        if rng.random() < 0.2 and m >= 2:
+            ms, lb, ub = ms[::-1], (lb[::-1] if lb else lb), (ub[::-1] if ub else ub)
+            tag += '-decreasing'
+        yield dict(tag=tag + ('' if n == 1 else '-n'), lines=[stitchm_line(ms, lb, ub, oc, n)])
+    for _ in range(k // 20):
+        # a scalar beside a time-of-day list is no timeseries: the code raises; dates beside times: TypeError
+        m = 2
+        ms = [('c', 5), ('s', rand_series6(rng))]
+        ts = sorted(rng.choice(TL) for _ in range(m))
+        yield dict(tag='tod-list-scalar', lines=[stitchm_line(ms, None, ts, '(]', 1)])
+        yield dict(tag='mixed-kind-lists', lines=[stitchm_line([('s', rand_series6(rng)), ('s', rand_series6(rng))],
+                                                              [pt(1), pt(5)], ts, '(]', rng.choice([1, 2]))])
+    # zipper's broadcasting: a list of length 1 beside longer ones is repeated; two different lengths (neither 1): ValueError
+    for _ in range(k // 3):
+        m = rng.choice([2, 3, 3, 4])
+        ms = [('s', rand_series_days(rng)) for _ in range(m)]
+        n = rng.choice([1, 1, 2, m])
+        bs = [day(b) for b in rand_bounds(rng, m)]
+        one = [day(rng.choice(range(-1, 13)))]
+        oc = rng.choice(['(]', OMIT] + BR)
+        r = rng.random()
+        if r < 0.25:
+            lb, ub, tag = one, bs, 'bcast-lb1'
+        elif r < 0.5:
+            lb, ub, tag = bs, one, 'bcast-ub1'
+        elif r < 0.6:
+            lb, ub, tag = None, one, 'bcast-ub1-only'
+        elif r < 0.7:
+            lb, ub, tag = one, None, 'bcast-lb1-only'
+        elif r < 0.9:
+            ms, lb, ub, tag = ms[:1], (None if rng.random() < 0.6 else bs), bs, 'bcast-series1'
+            if rng.random() < 0.3:
+                lb, ub = ub, None
+        else:
+            k2 = rng.choice([x for x in (0, 2, 3, 4, 5) if x != m])
+            lb, ub, tag = None, [day(b) for b in rand_bounds(rng, k2)], 'length-mismatch'
+        if rng.random() < 0.15 and tag in ('bcast-lb1', 'bcast-ub1'):
+            ms, lb, ub = ms[::-1], lb[::-1], ub[::-1]
+            tag += '-decreasing'
+        yield dict(tag=tag + ('' if n == 1 else '-n'), lines=[stitchm_line(ms, lb, ub, oc, n)])
+
+
+def gen_slices(rng, tier):
+    """ONE series (not a list) with bound lists: a python list of slices, concatenated when both bounds are lists"""
+    k = 250 if tier == 'quick' else 5000
+    DB, TB = date_bounds(), time_bounds()
+    for _ in range(k):
+        pairs = rand_series12(rng) if rng.random() < 0.7 else [(pt(i), i + 1) for i in range(12)]
+        oc = rng.choice(BR + ['(]', OMIT])
+        kind = rng.random()
+        pool = DB if kind < 0.6 else TB if kind < 0.85 else DB + TB + [None]
+
+        def lst():
+            q = rng.choice([0, 1, 2, 2, 3, 3, 4])
+            xs = [rng.choice(pool) for _ in range(q)]
+            return sorted(xs) if (None not in xs and len(set(type(x) for x in xs)) <= 1 and rng.random() < 0.7) else xs
+        r = rng.random()
+        if r < 0.35:
+            lb, ub, tag = rng.choice([None, None, rng.choice(pool)]), lst(), 'slices-ub-list'
+        elif r < 0.55:
+            lb, ub, tag = lst(), rng.choice([None, None, rng.choice(pool)]), 'slices-lb-list'
+        elif r < 0.75:
+            ub = lst()
+            if ub and all(isinstance(x, datetime.datetime) for x in ub) and rng.random() < 0.7:
+                ub = sorted(ub)
+                lb, tag = [rng.choice([None, DB[0], DB[3]])] + ub[:-1], 'slices-both-chained'
+            else:
+                lb, tag = [rng.choice(pool) for _ in ub], 'slices-both'
+        else:
+            a, b = lst(), lst()
+            lb, ub, tag = a, b, 'slices-both-lengths'
+        if rng.random() < 0.15:
+            pairs, sfx = reorder(rng, pairs)
+            if sfx == '+duplicate-stamps':
+                pairs = [p for i, p in enumerate(pairs) if i == 0 or pairs[i - 1][0] != p[0]]
+                sfx = ''
+            tag += sfx
+        yield dict(tag=tag, lines=[slices_line(pairs, lb, ub, oc)])
+
+
 def has_all_nan_row(dfs, ub, n):
     """does the frame the statement prescribes hold a row that is NaN in every column?"""
     if len(ub) != len(dfs) or any(a >= b for a, b in zip(ub, ub[1:])):
@@ -357,7 +554,7 @@ def generate(rng, tier):
     """one case in four is dated in the future (2090): a missing bound must stay unbounded, it is not "now" """
     global D0
     try:
-        for g in (gen_single, gen_stitch):
+        for g in (gen_single, gen_stitch, gen_members, gen_slices):
             it = g(rng, tier)
             while True:
                 D0 = FUTURE if rng.random() < 0.25 else PAST
@@ -397,6 +594,18 @@ def run_line(state, sx):
         dfs = [dec_ts(x) for x in args[0][1:]]
         n = int(args[4][2:])
         return 'ok ' + enc_frame(call_slice(dfs, dec_dates(args[1]), dec_dates(args[2]), args[3], n=n))
+    if op == 'stitchm':
+        ms = [dec_member(x) for x in args[0][1:]]
+        n = int(args[4][2:])
+        return 'ok ' + enc_frame(call_slice(ms, dec_blist(args[1]), dec_blist(args[2]), args[3], n=n))
+    if op == 'slices':
+        s = dec_ts(args[0])
+        r = call_slice(s, dec_barg(args[1]), dec_barg(args[2]), args[3])
+        if r is None:
+            return 'ok N'
+        if isinstance(r, list):
+            return 'ok (L' + ''.join(' ' + enc_result(x) for x in r) + ')'
+        return 'ok (T %s)' % enc_result(r)
     if op == 'roundtrip':
         dfs = [dec_ts(x) for x in args[0][1:]]
         ub = dec_dates(args[1])
@@ -545,6 +754,72 @@ def laws(rng, tier, ctx):
             continue
         if proto.canon(proto.parse(enc_frame(g))) != got:
             yield Finding('violation', case, 're-stitched frame %s differs from %s' % (enc_frame(g), enc_frame(f)))
+    # --- the new input classes, checked on the implementation alone
+    TL = [datetime.time(h) for h in (0, 3, 6, 9, 12, 15, 18, 21)]
+    m3 = 120 if tier == 'quick' else 2000
+    for _ in range(m3):
+        # bound lists of times of day (both lists: a window whose start is later than its end wraps), n = 1
+        m = rng.choice([2, 2, 3])
+        dfs = [rand_series6(rng) for _ in range(m)]
+        lb, ub = sorted(rng.choice(TL) for _ in range(m)), sorted(rng.choice(TL) for _ in range(m))
+        oc = rng.choice(BR)
+        count += 1
+        case = dict(tag='law-tod-lists', lines=[stitchm_line([('s', p) for p in dfs], lb, ub, oc, 1)])
+        ss = [pd.Series([float(v) for _, v in p], pd.DatetimeIndex([t for t, _ in p]), dtype=float) for p in dfs]
+        try:
+            f = df_slice(ss, lb, ub, oc)
+        except Exception as e:
+            yield Finding('violation', case, 'df_slice raised %s' % type(e).__name__)
+            continue
+        want = [(t, [v]) for p, a, b in zip(dfs, lb, ub) for t, v in p if py_in(t, a, b, oc)]
+        if proto.canon(proto.parse(enc_frame(f))) != proto.canon(proto.parse(enc_frame_rows(1, want))):
+            yield Finding('violation', case, 'stitched %s, the time-of-day windows prescribe %s' % (enc_frame(f), enc_frame_rows(1, want)))
+    for _ in range(m3):
+        # one series, a list of upper bounds: one slice per bound; both bounds as lists: the slices concatenated
+        pairs = rand_series12(rng)
+        q = rng.choice([2, 3, 4])
+        ub = sorted(rng.choice(DB) for _ in range(q))
+        oc = rng.choice(BR)
+        both = rng.random() < 0.5
+        lb = ([rng.choice([None, DB[0]])] + ub[:-1]) if both else rng.choice([None, DB[1], DB[5]])
+        count += 1
+        case = dict(tag='law-slices', lines=[slices_line(pairs, lb, ub, oc)])
+        s = pd.Series([np.nan if v is None else float(v) for _, v in pairs], pd.DatetimeIndex([t for t, _ in pairs]), dtype=float)
+        try:
+            r = df_slice(s, lb, ub, oc)
+        except Exception as e:
+            yield Finding('violation', case, 'df_slice raised %s' % type(e).__name__)
+            continue
+        pieces = [[(t, v) for t, v in pairs if (py_in(t, a, b, oc) if pairs else True)] for a, b in zip(lb if both else [lb] * q, ub)]
+
+        def rows(x):
+            return [(pd.Timestamp(t).to_pydatetime(), None if v != v else int(v)) for t, v in zip(x.index, x.values)]
+        if both:
+            got, want = rows(r) if isinstance(r, pd.Series) else None, [x for p in pieces for x in p]
+        else:
+            got, want = [rows(x) for x in r] if isinstance(r, list) else None, pieces
+        if got != want:
+            yield Finding('violation', case, 'slices %s, the bounds prescribe %s' % (got, want))
+    for _ in range(m3):
+        # lists holding DataFrames and scalars, n = 1: piece i is member i cut to (ub[i-1], ub[i]]; a scalar is constant on the bounds
+        m = rng.choice([2, 3, 3])
+        ms = [rand_member(rng) for _ in range(m)]
+        ubi = rand_bounds(rng, m, strict=True)
+        ub = [day(b) for b in ubi]
+        count += 1
+        case = dict(tag='law-members', lines=[stitchm_line(ms, None, ub, '(]', 1)])
+        try:
+            f = df_slice([dec_member(proto.parse(enc_member(x))) for x in ms], ub=ub)
+        except Exception as e:
+            yield Finding('violation', case, 'df_slice raised %s' % type(e).__name__)
+            continue
+        w = max(x[1] if x[0] == 'f' else 1 for x in ms)
+        want = []
+        for i, x in enumerate(ms):
+            rws = [(t, [v]) for t, v in x[1]] if x[0] == 's' else x[2] if x[0] == 'f' else [(b, [x[1]]) for b in ub]
+            want += [(t, vs + [None] * (w - len(vs))) for t, vs in rws if (i == 0 or t > ub[i - 1]) and t <= ub[i]]
+        if proto.canon(proto.parse(enc_frame(f))) != proto.canon(proto.parse(enc_frame_rows(w, want))):
+            yield Finding('violation', case, 'stitched %s, the bounds prescribe %s' % (enc_frame(f), enc_frame_rows(w, want)))
     yield count
 
 
